@@ -21,6 +21,9 @@ CHECKS = {
  'C16': dict(text='Exhaustive enumeration of all ordered pairs of type terms of depth <= 2 over a reduced alphabet (1.67M pairs in quick) plus Hypothesis-sampled pairs and triples of depth <= 3 with shared TypeReference objects, reference chains and bare concrete children; oracle is an independent structural meet with bottom (two formulations cross-checked); symmetry, same-denotation, idempotence, information preservation, clash iff bottom, order independence of clash-free triples.',
              note='Trusted: CPython, Hypothesis, the independent oracle lv/typemeet.py. Cyclic (occurs-check) cases skipped; nothing asserted after a clash inside a triple.',
              technique='exhaustive enumeration + property-based testing against a reference model (Hypothesis)', ref='2/C16'),
+ 'C20': dict(text='One generated built-in call per case (scalar built-ins over small int/string/list domains; aggregates over <= 5 facts under ALL permutations of the fact order, K from 1 to n+1, ties, duplicates, nulls); executed on SQLite and compared with small Python models written from the documentation; every built-in of the statement exercised in every run.',
+             note='Trusted: CPython, sqlite3, Hypothesis, the models in lv/builtin_models.py (each cites its documentation source). Corners the docs leave open (Element out of range, Split with empty separator, int division with remainder, negative modulo ...) are kept out of the domain and listed in evidence.',
+             technique='property-based testing against reference models + exhaustive permutation of aggregate input order (Hypothesis)', ref='2/C20'),
 }
 NOT_YET = 'check not built yet in this round (planned in DESIGN.md)'
 m = {
